@@ -14,6 +14,17 @@ Whatever pymbolic remembers per class about earlier use is then in its initial s
 and the order in which a history first uses the classes is the order pymbolic sees.  Objects that "arrive from another interpreter" are built (and, if the history
 says so, hashed) and pickled by a helper interpreter running with a different
 PYTHONHASHSEED, and unpickled here.
+
+Round 6, object lifetimes: a Drop event ends the lifetime of an object for real (the
+trace gives up the only reference it holds; CPython frees the object at once, a
+gc.collect() follows if it did not) and every object created later is recorded with the
+address it got (id(), interned per trace in order of first occurrence).  CPython hands the
+block that was freed last to the next object of the same size, but the recording work the
+driver itself does between two events allocates too; so the freed block is kept reserved by
+a placeholder of the same size (an instance of an empty class that is not an expression
+and that nothing ever looks at) until just before the next constructor call of the history,
+whose arguments are built first.  Whether the new object really sits where a dead one was
+is an observation (r["ad"]), not something the driver arranges behind the judge's back.
 Nothing in here judges anything."""
 from __future__ import annotations
 
@@ -370,7 +381,9 @@ def mutate_backing(backing):
         d["zz_late"] = 777
 
 
-def build(j):
+def build(j, pre=None):
+    """pre: called after the arguments of the (top-level) node have been built, right
+    before its constructor runs"""
     import numpy as np
     t = j["t"]
     if t == "K":
@@ -405,9 +418,12 @@ def build(j):
         return _mapping_in_form(j["mt"], d)
     if t == "N":
         vals = [build(f) for f in j["f"]]
+        cls = _classes()[0][j["cls"]]
+        if pre is not None:
+            pre()
         if j["cls"] in BY_FIELD_TABLE:
-            return _construct(_classes()[0][j["cls"]], vals)
-        return _classes()[0][j["cls"]](*vals)
+            return _construct(cls, vals)
+        return cls(*vals)
     raise ValueError(t)
 
 
@@ -477,9 +493,44 @@ def read(v):
 
 
 # ------------------------------------------------------------------- driving
+class _Placeholder:
+    """occupies a block of the size of a node instance (see the module text)"""
+
+
+# CPython's small-object allocator hands out the free blocks of ONE pool of a size class
+# until that pool is full; a block freed in another pool is not the next one to be handed
+# out.  _occupy_until() allocates placeholders until one sits at the wanted address; the
+# others are parked here (no allocation of that size happens while parking them) until the
+# caller lets go of them.
+_LIMIT = 60000
+_PARKED = [None] * _LIMIT
+
+
+def _occupy_until(addr):
+    """-> (placeholder sitting at addr or None, number of parked placeholders)"""
+    n = 0
+    while n < _LIMIT:
+        ph = _Placeholder()
+        if id(ph) == addr:
+            return ph, n
+        _PARKED[n] = ph
+        n += 1
+    return None, n
+
+
+def _unpark(n):
+    while n > 0:
+        n -= 1
+        _PARKED[n] = None
+
+
 class _Trace:
     def __init__(self):
         self.objs = []
+        self.aids = {}          # raw address -> small id, in order of first occurrence
+        self.dead = {}          # index of a dead object -> its last projection
+        self.reserved = []      # placeholders sitting on freed blocks, oldest first
+        self.parked = 0
         self.hids = {}
         self.trees = []
         self.tids = {}
@@ -499,9 +550,50 @@ class _Trace:
             self.tids[key] = len(self.trees)
         return self.tids[key]
 
+    def aid(self, raw):
+        if raw not in self.aids:
+            self.aids[raw] = len(self.aids) + 1
+        return self.aids[raw]
+
+    def drop(self, i):
+        """the lifetime of the i-th object ends here; the block it leaves is kept reserved
+        (the driver's own recording work would take it otherwise)"""
+        import gc
+        self.dead[i] = self.proj()[i - 1]
+        old = id(self.objs[i - 1])
+        self.objs[i - 1] = None
+        ph, n = _occupy_until(old)
+        _unpark(n)
+        if ph is None:
+            # not freed by the reference count (or the block was given back to the system)
+            gc.collect()
+            ph, n = _occupy_until(old)
+            _unpark(n)
+        if ph is not None:
+            self.reserved.append(ph)
+
+    def before_alloc(self):
+        """called right before a constructor / copy of the history runs: the reserved
+        blocks are given back, and the one freed last is made the next block the allocator
+        hands out"""
+        if not self.reserved:
+            return
+        addr = id(self.reserved[-1])
+        while self.reserved:
+            self.reserved.pop(0)
+        ph, self.parked = _occupy_until(addr)
+        ph = None
+
+    def after_alloc(self):
+        _unpark(self.parked)
+        self.parked = 0
+
     def proj(self):
         out = []
-        for o in self.objs:
+        for k, o in enumerate(self.objs):
+            if o is None:
+                out.append(self.dead[k + 1])
+                continue
             hv = o.__dict__.get("_hash_value", _MISSING)
             out.append({"tr": self.tid(read(o)),
                         "hashed": 0 if hv is _MISSING else 1,
@@ -532,10 +624,16 @@ def _step(tr, ev):
     import dataclasses
     op, i, j = ev["op"], ev["i"], ev["j"]
     n = len(tr.objs)
-    if op != "New" and not 1 <= i <= n:
+    if op != "New" and not (1 <= i <= n and tr.objs[i - 1] is not None):
         return _res("bad")
-    if (op in ("Eq", "Ne", "Replace") or (op == "SetAttr" and j != 0)) and not 1 <= j <= n:
+    if (op in ("Eq", "Ne", "Replace") or (op == "SetAttr" and j != 0)) \
+            and not (1 <= j <= n and tr.objs[j - 1] is not None):
         return _res("bad")
+    if op == "Drop":
+        tr.drop(i)
+        return _res("ok")
+    if op in ("Copy", "Replace", "Touch"):
+        tr.before_alloc()
     a = tr.objs[i - 1] if op != "New" else None
     b = tr.objs[j - 1] if 1 <= j <= n else None
     try:
@@ -547,6 +645,7 @@ def _step(tr, ev):
                     return _res("err", exc=blob["err"])
                 if "nopickle" in blob:
                     return _res("nopickle", exc=blob["nopickle"])
+                tr.before_alloc()
                 try:
                     c = pickle.loads(bytes.fromhex(blob["hex"]))
                 except Exception as exc:  # noqa: BLE001
@@ -555,7 +654,7 @@ def _step(tr, ev):
                 return _res("new")
             del _BACKING[:]
             try:
-                o = build(ev["spec"])
+                o = build(ev["spec"], tr.before_alloc)
             finally:
                 kept = list(_BACKING)
                 del _BACKING[:]
@@ -723,6 +822,9 @@ def _drive_inproc(case, blobs, fresh):
                 [ev["spec"] for ev in case["hist"] if ev["op"] == "New"], {n})})
         for ev in case["hist"]:
             r = _step(tr, ev)
+            tr.after_alloc()
+            # the address the object this step created was given
+            r["ad"] = tr.aid(id(tr.objs[-1])) if r["k"] == "new" else 0
             r["proj"] = tr.proj()
             evs.append({"ev": ev, "r": r})
     return {"id": case["id"], "sweep": case["sweep"], "trees": tr.trees, "evs": evs}
